@@ -169,7 +169,8 @@ def run(ctx):
             continue
         n += 1
         cl = lib.closures_of(g_)
-        has = any(short(p) == 'into_avg_strat' for c in cl for _, _, p in c.calls())
+        has = any(short(p) == 'into_avg_strat' for c in cl + [g_] for _, _, p in c.calls()) or \
+            any(x[0] == 'fn' and short(x[1]) == 'into_avg_strat' for c in cl + [g_] for bi, t, p in c.calls() for x in facts.walk(c.call_expr(t, bi)))    # passed as a method reference
         fm = any(short(p) == 'flat_map' for c in cl + [g_] for _, _, p in c.calls())
         ctx.touch(g_)
         ctx.verdict(has and fm, rule, '%s:avg-strat:%s' % (rule, g_.name), 'every infoset\'s returned probabilities are its normalised average strategy (flat_map over all infosets of into_avg_strat)', g_.where(0), 'into_avg_strat: %s, flat_map: %s' % (has, fm))
@@ -181,7 +182,17 @@ def run(ctx):
             continue
         av = q.calls_named(f, 'avg_strat')
         r = q.ret_expr(f)
-        on_cum = bool(av) and 'cum_strat' in facts.show(av[0][2][2][0])
+        # the cumulative strategy is the field the sibling update_cum_strat accumulates into (robust to renaming)
+        ty_ = suf.rsplit('::', 1)[0]
+        written = set()
+        for n_, u in lib.fns.items():
+            if n_.endswith('::update_cum_strat') and ('<%s as ' % ty_) in n_:
+                for bi, st, pl, rhs in q.stores(u):
+                    for x in facts.walk(pl):
+                        if x[0] == 'field' and strip_refs(x[1])[0] == 'param' and strip_refs(x[1])[1] == 1:
+                            written.add(x[2])
+        written = written or {'cum_strat'}
+        on_cum = bool(av) and any(x[0] == 'field' and x[2] in written for x in facts.walk(av[0][2][2][0]))
         ctx.verdict(on_cum, rule, '%s:normalises-cum-strat:%s' % (rule, suf.split('::')[-2]), 'into_avg_strat normalises and returns the cumulative strategy', f.where(0), 'avg_strat(cum_strat): %s' % on_cum)
     # ---------------- (4) bounds
     c02.bound_form(ctx, 'C05.bound-nonnegative')
